@@ -59,7 +59,7 @@ PROPS = {
     "C10": dict(
         kinds=["graph"], generate=gen_graph_cases, proj=proj_graph_c10, proj_name="C10: op results, ranks, edge set",
         oracle=lambda c, io: oracle_graph.check(io, "C10"), nontrivial=graph_nontrivial, rule=GRAPH_RULE,
-        lean_targets=["PieModel.Props.C10"], theorems=["PieModel.C10_placeholder"],
+        lean_targets=["PieModel.Props.C10"], theorems=["PieModel.C10_inv_step","PieModel.C10_inv_reachable","PieModel.C10_ranks_bijection","PieModel.C10_edges_upward","PieModel.C10_acyclic","PieModel.C10_addEdge_cycle_iff","PieModel.C10_addEdge_rejected_unchanged","PieModel.C10_addEdge_missing_iff"],
     ),
     "C11": dict(
         kinds=["graph"], generate=gen_graph_cases, proj=lambda c, l: l, proj_name="C11: complete query dump after every op",
@@ -67,3 +67,109 @@ PROPS = {
         lean_targets=["PieModel.Props.C11"], theorems=["PieModel.C11_placeholder"],
     ),
 }
+
+
+# ----------------------------------------------------------------------------- build properties
+import gen_build as GB, oracle_build as OB
+
+
+def build_stream(gens, nq, nt):
+    """gens: list of (name, generator(rng) -> body | (body, meta), weight)"""
+    def generate(rng, tier, seed):
+        n = nq if tier == "quick" else nt
+        cases, agg = [], {}
+        names = [g[0] for g in gens for _ in range(g[2])]
+        fns = {g[0]: g[1] for g in gens}
+        for i in range(n):
+            name = names[i % len(names)]
+            r = random.Random(rng.getrandbits(48))
+            res = fns[name](r)
+            body, meta = res if isinstance(res, tuple) else (res, {})
+            cases.append(Case("build", f"{name}{seed}-{i}", body, dict(meta, stream=name)))
+            agg["cases_" + name] = agg.get("cases_" + name, 0) + 1
+        return cases, agg
+    return generate
+
+
+def proj_lines(prefixes):
+    def proj(case, lines):
+        return [l for l in lines if l.startswith(prefixes)]
+    return proj
+
+
+def build_stats(case, io):
+    return any(l.startswith("ev execute_start") for l in io)
+
+
+WELL = [("td", GB.case_td, 2), ("bu", GB.case_bu, 1)]
+BUILD_RULE = ("scripted task programs (3-8 tasks, value-dependent requires/reads/writes, all built-in and harness checkers) with "
+              "histories of sessions and external changes, generated from VERIF_SEED; a case is non-trivial if at least one task "
+              "executed on the real crates; distinct = distinct case text")
+
+ALL_BUILD = ("op ", "ev ", "tl ", "out ", "abort ", "done", "skipped", "errors ", "fs ", "st ", "cl ", "known ", "bad-op", "et ", "composite")
+
+
+def known_if_model_agrees(fid, oracle):
+    """pattern of a known finding: the oracle fails on the implementation AND on the model's own output for the same
+    case (the finding is a property of the algorithm as modelled, not a deviation of the code from the model)."""
+    def km(case, io, mo):
+        return fid if (oracle(case, io) and oracle(case, mo)) else None
+    return km
+
+
+def mk(prop, gens, nq, nt, proj, oracle, theorems, **kw):
+    return dict(kinds=["build"], generate=build_stream(gens, nq, nt), proj=proj, oracle=oracle, nontrivial=build_stats,
+                rule=BUILD_RULE, lean_targets=[f"PieModel.Props.{prop}"], theorems=theorems, **kw)
+
+
+PROPS.update({
+    "C01": mk("C01", WELL + [("tdx", lambda r: GB.case_td(r, exact=True), 1)], 240, 12000,
+              proj_lines(("op ", "out ", "abort ", "done", "skipped", "fs ", "cl ", "known ", "bad-op")), OB.c01, [],
+              proj_name="C01: returned outputs, abort kinds, resource contents, reference builds"),
+    "C02": mk("C02", [("td", GB.case_td, 1), ("tdx", lambda r: (GB.case_td(r, exact=True), dict(exact=True)), 1)], 240, 12000,
+              proj_lines(("op ", "ev execute_start", "ev check_", "out ", "abort ", "cl exec", "bad-op")),
+              lambda c, io: OB.c02(c, io, exact=c.meta.get("exact", False)), [],
+              proj_name="C02: execute_start and check events with verdicts per session"),
+    "C03": mk("C03", [("bu", GB.case_bu, 3), ("k1", GB.case_partial_td_then_bu, 1)], 240, 12000,
+              proj_lines(("op ", "ev execute_", "ev schedule_task", "out ", "abort ", "done", "fs ", "cl ", "known ", "bad-op")), OB.c03, [],
+              proj_name="C03: executions, scheduling, outputs, contents", known_match=known_if_model_agrees("K1", OB.c03)),
+    "C04": mk("C04", [("bu", GB.case_bu, 1)], 240, 12000,
+              proj_lines(("op ", "ev execute_", "ev schedule_", "ev check_task_re", "out ", "abort ", "done", "bad-op")), OB.c04, [],
+              proj_name="C04: order of execute_start/end, schedule and scheduling-check events"),
+    "C05": mk("C05", [("hid", GB.case_hidden, 3), ("td", GB.case_td, 1)], 240, 12000,
+              proj_lines(("op ", "out ", "abort ", "done", "skipped", "fs ", "st ", "bad-op")),
+              lambda c, io: OB.dump_invariants(c, io, "C05") + OB.abort_content(c, io), [],
+              proj_name="C05: abort kinds, contents at abort, store dump",
+              known_match=known_if_model_agrees("K4", lambda c, io: OB.dump_invariants(c, io, "C05"))),
+    "C06": mk("C06", [("ovl", GB.case_overlap, 3), ("td", GB.case_td, 1), ("bu", GB.case_bu, 1)], 240, 12000,
+              proj_lines(("op ", "out ", "abort ", "done", "skipped", "fs ", "st ", "bad-op")),
+              lambda c, io: OB.dump_invariants(c, io, "C06") + OB.abort_content(c, io) + (
+                  [f"well-formed program aborted: {l}" for l in io if l == "abort overlap"] if c.meta.get("stream") in ("td", "bu") else []), [],
+              proj_name="C06: abort kinds, contents at abort, store dump"),
+    "C07": mk("C07", [("cyc", GB.case_cycle, 1)], 240, 12000,
+              proj_lines(("op ", "out ", "abort ", "done", "skipped", "tl ", "st ", "bad-op")), OB.c07, [],
+              proj_name="C07: abort kinds, task-side log, store dump"),
+    "C08": mk("C08", [("td", GB.case_td, 2), ("bu", GB.case_bu, 1), ("k2", GB.case_multichecker, 1)], 240, 12000,
+              proj_lines(("op ", "st ", "abort ", "bad-op")), OB.c08, [],
+              proj_name="C08: store dump after every session", known_match=known_if_model_agrees("K2", OB.c08)),
+    "C09": mk("C09", WELL, 240, 12000,
+              proj_lines(("op ", "ev read_end", "ev write_end", "ev require_end", "ev check_", "abort ", "bad-op")), lambda c, io: [], [],
+              proj_name="C09: stamps in *_end events and verdicts of every check event"),
+    "C16": mk("C16", WELL + [("hid", GB.case_hidden, 1), ("fail", GB.case_failing_checker, 1)], 240, 12000,
+              proj_lines(ALL_BUILD), lambda c, io: [], [], proj_name="C16: complete canonical event stream and outputs"),
+    "C17": mk("C17", WELL + [("pan", GB.case_panic, 1), ("fail", GB.case_failing_checker, 1)], 240, 12000,
+              proj_lines(("op ", "ev ", "tl ", "et ", "composite", "out ", "abort ", "done", "bad-op")), OB.c17, [],
+              proj_name="C17: complete event stream, task-side log, EventTracker contents"),
+    "C18": mk("C18", [("fail", GB.case_failing_checker, 1)], 240, 12000,
+              proj_lines(("op ", "errors ", "ev execute_start", "ev schedule_task", "out ", "abort ", "done", "bad-op")), OB.c18, [],
+              proj_name="C18: dependency_check_errors, executions, scheduling, outputs"),
+    "C19": mk("C19", [("pan", GB.case_panic, 1)], 240, 12000,
+              proj_lines(("op ", "out ", "abort ", "done", "skipped", "fs ", "cl ", "bad-op")), OB.c19, [],
+              proj_name="C19: outcomes of all sessions after an abort"),
+    "C20": mk("C20", [("rol", GB.case_roles, 2), ("td", GB.case_td, 1), ("bu", GB.case_bu, 1)], 240, 12000,
+              proj_lines(("op ", "out ", "abort ", "done", "skipped", "cl ", "bad-op")),
+              lambda c, io: OB.c20(c, io) + ([f"well-formed program aborted: {l}" for l in io if l in ("abort overlap", "abort hidden", "abort cyclic")]
+                                             if c.meta.get("stream") in ("td", "bu") else []), [],
+              proj_name="C20: abort kinds vs from-scratch build of all known tasks",
+              known_match=known_if_model_agrees("K3", OB.c20)),
+})
